@@ -443,27 +443,7 @@ def suite_ddd(ctx):
 def suite_races(ctx):
     """several threads use the library at the same moment, each on objects of its own, from the first use in a fresh process: what each thread gets is what the same call
     gives single-threaded (child processes: harness/race_child.py memloc)"""
-    import json
-    import os
-    import subprocess
-    import sys as _sys
-    s = Suite('races')
-    env = dict(os.environ, UDS_REPO=core.REPO)
-    child = os.path.join(os.path.dirname(os.path.dirname(os.path.abspath(__file__))), 'race_child.py')
-    for what in ['memloc']:
-        for run in range(ctx.n(3, 12)):
-            p = subprocess.run([_sys.executable, child, what], stdout=subprocess.PIPE, stderr=subprocess.PIPE, text=True, env=env, timeout=300)
-            s.evaluations += 1
-            s.distinct.add('%s:%d' % (what, run))
-            try:
-                problems = json.loads(p.stdout.strip().split('\n')[-1])
-            except Exception:  # noqa
-                problems = [{'input': 'race_child.py ' + what, 'observed': 'child failed: ' + (p.stderr or p.stdout)[-500:], 'required': 'the scenario runs to its end'}]
-            for pr in problems[:3]:
-                s.fail({'site': 'threads (%s)' % what, 'input': pr['input'], 'observed': pr['observed'], 'required': pr['required']})
-            if problems:
-                break
-    return s
+    return core.suite_races(['memloc'], ctx.n(10, 24))
 
 
 def suite_user_code(ctx):
